@@ -125,7 +125,7 @@ where
                     .expect("cannot poll Execute future after it has succeded");
                 let mut context = thread.context();
                 let stack = StackFrame::<State>::current(&mut context.stack);
-                let new_trace = reset_stack(stack, 1)?;
+                let new_trace = reset_after_error(thread, &err, stack, 1, None)?;
                 if let Error::Panic(_, ref mut trace) = err {
                     *trace = Some(new_trace);
                 }
@@ -1108,11 +1108,12 @@ where
     {
         let self_ = RootedThread::new_root(self.borrow());
         let level = self_.context().stack.get_frames().len();
+        let stack_len = self_.context().stack.len();
 
         self.call_thunk(closure).await.or_else(move |mut err| {
             let mut context = self_.context();
             let stack = StackFrame::<State>::current(&mut context.stack);
-            let new_trace = reset_stack(stack, level)?;
+            let new_trace = reset_after_error(&self_, &err, stack, level, Some(stack_len))?;
             if let Error::Panic(_, ref mut trace) = err {
                 *trace = Some(new_trace);
             }
@@ -1129,10 +1130,11 @@ where
     {
         let self_ = RootedThread::new_root(self.borrow());
         let level = self_.context().stack.get_frames().len();
+        let stack_len = self_.context().stack.len();
         self.execute_io(value).await.or_else(move |mut err| {
             let mut context = self_.context();
             let stack = StackFrame::<State>::current(&mut context.stack);
-            let new_trace = reset_stack(stack, level)?;
+            let new_trace = reset_after_error(&self_, &err, stack, level, Some(stack_len))?;
             if let Error::Panic(_, ref mut trace) = err {
                 *trace = Some(new_trace);
             }
@@ -2949,6 +2951,35 @@ impl<'vm> ActiveThread<'vm> {
     }
 }
 #[doc(hidden)]
+/// Unwinds the stack after a failed top level call and makes the thread usable again: an interrupt
+/// has been delivered once it made a call fail and the values the failed call left on the stack
+/// (above `stack_len`) are released
+fn reset_after_error(
+    thread: &Thread,
+    err: &Error,
+    mut stack: StackFrame<State>,
+    level: usize,
+    stack_len: Option<VmIndex>,
+) -> Result<crate::stack::Stacktrace> {
+    if let Error::Interrupted = err {
+        thread.interrupt.store(false, atomic::Ordering::Relaxed);
+    }
+    let trace = stack.stack().stacktrace(level);
+    while stack.stack().get_frames().len() > level {
+        stack = match stack.exit_scope() {
+            Ok(s) => s,
+            Err(_) => return Err(format!("Attempted to exit scope above current").into()),
+        };
+    }
+    if let Some(stack_len) = stack_len {
+        let len = stack.stack().len();
+        if len > stack_len {
+            stack.pop_many(len - stack_len);
+        }
+    }
+    Ok(trace)
+}
+
 pub fn reset_stack(mut stack: StackFrame<State>, level: usize) -> Result<crate::stack::Stacktrace> {
     let trace = stack.stack().stacktrace(level);
     while stack.stack().get_frames().len() > level {
